@@ -134,6 +134,19 @@ func runC08(b *runner.Batch) {
 			hs = append(hs, c08Near(b))
 		}
 		b.HitN("double-resize-histories", len(hs))
+		// three resizes: a small ring that has wrapped is made longer and, 0-2 ticks later, shorter again but not as
+		// short as it was — the older maps then sit at the end of the longer ring although fewer epochs than its length
+		// have passed (seeded change C08-10: "the ring was never filled, nothing to move")
+		for i := 0; i < 5; i++ {
+			c1 := int64(1 + b.Rng.IntN(5))
+			t0 := int64(b.Rng.IntN(3))
+			t1 := t0 + c1 + int64(1+b.Rng.IntN(3))
+			c2 := c1 + int64(3+b.Rng.IntN(4))
+			t2 := t1 + int64(b.Rng.IntN(3))
+			c3 := c1 + int64(b.Rng.IntN(int(c2-c1)))
+			hs[c08ChunkQ-2-i] = c08History{resizes: []resize{{t0, c1}, {t1, c2}, {t2, c3}}, extra: 6}
+		}
+		b.Hit("wrapped-small-ring-grown-then-shrunk")
 		if b.Index == nSingleBatches+c08Quick2/c08ChunkQ {
 			// a ring of more than 128 slots, filled, cut down and grown again: slot numbers above 127 are the first
 			// whose one-byte key is not what an integer-to-string conversion yields (seeded change C08-8)
